@@ -86,6 +86,13 @@ def run_check(modname: str, tier: str, replay: str | None = None) -> int:
 
     # 1. proof obligations
     proofs = core.check_proofs(mod.PROP_FILE, mod.THEOREMS, getattr(mod, 'DRIVER', None))
+    rechecked = None
+    if tier == "thorough" and proofs.ok:
+        ok, log = core.leanchecker(mod.PROP_FILE)
+        rechecked = ok
+        if not ok:
+            proofs.broken.append("leanchecker rejected the compiled module: " + log[-300:])
+            proofs.ok = False
     for b in proofs.broken:
         sys.stderr.write(f"[proof] {b}\n")
 
@@ -225,6 +232,7 @@ def run_check(modname: str, tier: str, replay: str | None = None) -> int:
         "histogram": dict(hist),
         "known_findings_hit": sorted(known_hit),
         "proof_broken": proofs.broken,
+        "leanchecker_recheck": rechecked,
         "anchored_files_changed_since_pin": moved,
         "harness_errors": harness_err,
         "explanation": getattr(mod, "EXPLANATION", ""),
